@@ -30,12 +30,15 @@ structure Cfg where
   /-- the run phase of janet_loop1 does `task.fiber->sched_id++` after the stale-task filter: a fiber's generation
       advances when it is scheduled AND when its task is resumed -/
   resumeBumps : Bool
+  /-- the run phase of janet_loop1 does not push the supervisor event of a finished fiber into a CLOSED supervisor
+      channel (false: it calls janet_channel_push, which panics outside any fiber - the thread ends) -/
+  supervisorSkipsClosed : Bool := true
   deriving Repr, DecidableEq
 
 /-- every check present, operators as in the reference source -/
-def Cfg.good : Cfg := ⟨true, true, true, true, true, true⟩
+def Cfg.good : Cfg := ⟨true, true, true, true, true, true, true⟩
 /-- the pinned tree before any fix -/
-def Cfg.pinned : Cfg := ⟨true, true, false, false, false, false⟩
+def Cfg.pinned : Cfg := ⟨true, true, false, false, false, false, false⟩
 
 /-- Janet values that occur as results of channel operations (items are natural numbers = their ghost ids). -/
 inductive Val where
@@ -392,6 +395,15 @@ def loopPollDrop (w : World) : World :=
 
 def loopDone (w : World) : Bool := w.runq.isEmpty && w.timers.isEmpty && w.listeners == 0
 
+/-- run phase of janet_loop1 after janet_continue_signal returned with a signal the supervisor wants:
+    `janet_channel_push(chan, make_supervisor_event(...), 2)` - mode 2: no root fiber, never blocks, never registers.
+    A closed supervisor channel is skipped (source with the guard; without it janet_panic ends the thread - the
+    scheduler `Ev/Exec.lean` stops the run there). -/
+def supPush (cfg : Cfg) (w : World) (c x : Nat) : World × Outcome :=
+  match chanPush cfg w 0 c x 2 with
+  | .ok w' _ => (w', .done)
+  | .closedErr => (w, .done)
+
 /-! ### labelled transitions -/
 
 inductive Action where
@@ -408,6 +420,7 @@ inductive Action where
   | runTask                     -- loop: run phase, one task
   | timers                      -- loop: timer phase
   | poll                        -- loop: poll phase (drops stale timers)
+  | supEvent (c x : Nat)        -- loop: run phase, after a supervised fiber finished: push its event `x` to channel `c`
   deriving Repr, DecidableEq
 
 def step (cfg : Cfg) (w : World) (a : Action) : World × Outcome :=
@@ -415,6 +428,7 @@ def step (cfg : Cfg) (w : World) (a : Action) : World × Outcome :=
   | none, .runTask => loopRunTask cfg w
   | none, .timers => (loopTimers w, .done)
   | none, .poll => (loopPollDrop w, .done)
+  | none, .supEvent c x => supPush cfg w c x
   | some _, .go g =>
     -- ev/go on a fiber that has never been scheduled
     if (w.fibers g).status = .new ∧ (w.fibers g).sched = 0 then (schedule w g .nil, .ret .nil) else (w, .noop)
